@@ -45,13 +45,14 @@ mod verif_c02_message {
             G_CRC
         }
     }
-    /// C04 rule relative to the CRC value the stand-in handed out.  If the code under
-    /// verification never consulted the CRC routine (it may compute the parity some other way),
-    /// the relative form says nothing; the end-to-end obligations C04.get_message.parity.*.e2e
-    /// (spec CRC against whatever the code computes) decide in that case.
+    /// C04 rule relative to the CRC value the stand-in handed out.  Like the dispatcher
+    /// obligations this is tied to today's function boundary: a squitter can only be accepted
+    /// after the contracted CRC routine was consulted about it.  (Code that computes the parity
+    /// through another routine fails here although it may be right; the end-to-end obligations
+    /// C04.get_message.parity.*.e2e - thorough tier, they need tens of minutes - are the arbiter.)
     fn parity_rel(d: &[u32], c: u32) -> bool {
         if !unsafe { G_CRC_INIT } {
-            return true;
+            return !matches!(vs::df_of(d), 11 | 17 | 18);
         }
         let syn = c ^ vs::ap_field(d);
         match vs::df_of(d) {
@@ -172,7 +173,7 @@ mod verif_c02_message {
         kani::cover!(true, "reach_end");
     }
 
-    //@ob id=C04.get_message.parity.14.e2e flags=noassert props=C04,C02 tier=quick kind=harness fns=utils.rs:get_message,utils/crc.rs:crc56 draw=frame14 replay=line
+    //@ob id=C04.get_message.parity.14.e2e flags=noassert mem=high props=C04,C02 tier=thorough kind=harness fns=utils.rs:get_message,utils/crc.rs:crc56 draw=frame14 replay=line
     //@region all 14-digit vectors, end to end without any stand-in for the CRC: accepted iff DF<=15 and (DF11 => spec CRC-24 syndrome & 0xFFFF80 == 0) - whatever routine the code uses
     #[kani::proof]
     #[kani::stub(clean_squitter, clean_stub_14)]
@@ -191,7 +192,7 @@ mod verif_c02_message {
         kani::cover!(true, "reach_end");
     }
 
-    //@ob id=C04.get_message.parity.28.e2e flags=noassert props=C04,C02 tier=quick kind=harness fns=utils.rs:get_message,utils/crc.rs:crc112 draw=frame28 replay=line
+    //@ob id=C04.get_message.parity.28.e2e flags=noassert mem=high props=C04,C02 tier=thorough kind=harness fns=utils.rs:get_message,utils/crc.rs:crc112 draw=frame28 replay=line
     //@region all 28-digit vectors, end to end without any stand-in for the CRC: accepted iff DF>=16 and (DF17/18 => spec CRC-24 syndrome == 0) - whatever routine the code uses
     #[kani::proof]
     #[kani::stub(clean_squitter, clean_stub_28)]
